@@ -25,7 +25,7 @@ RULE = ("case = (matrix a, matrix b, ignore settings (comments, attributes, defi
         "(frame: added/deleted/length/id/format/name/comment/sender/attribute/signal group; signal: added/deleted/renamed/start/width/"
         "factor/offset/min/max/byte order/sign/multiplex/unit/comment/receiver/attribute/value table; ECU: added/deleted/comment/"
         "attribute; definitions of all four kinds: added/deleted/definition/default; global attribute; global value table), or an "
-        "The two matrices are compared in both orders, and once more, as the same objects. unrelated matrix; both operand orders are compared. Numbers include values around 2^32 (the next half step differs in the tenth digit), value texts include characters outside ASCII, frames added with the number of an existing frame in the other format, definitions edited inside their type (ENUM values, INT range). Frame lengths are 0..8, every length up to 64 bytes and a few longer ones (a length edit goes to a usual length, to a neighbour one or two bytes away, or to any length); signals of longer frames start anywhere in them. Signals share their bits (start, width, byte order) with other signals of the frame - other multiplexer groups or plain overlaps - in generated frames, as the added signal (signal.add-overlay) and as the deleted one; signals are renamed; added frames, signals, ECUs, definitions, value tables and signal groups are also copies of existing ones under a new name. One case in five is compared after one to three other comparisons (other operands, other ignore settings) in the same process. A second stream goes through the command line canmatrix.cli.compare: the two matrices (made expressible in DBC: every attribute defined, one multiplexer per frame) are written to files, the case describes what a reader gets from the files, and cli_compare is invoked in a forked child process - by main(args), by click's CliRunner or by its callback, switches -c/-a/-t in short or long spelling - on a b and on b a, after zero to three earlier invocations with other switches, other operand orders or --frames; the printed report is held against the library comparison of the same files under the ignore settings the switches stand for, and is itself the observation when it differs. The meaning of the switches (op flags) is observed on twelve probe file pairs that differ in one comment / attribute / definition / value table entry, again after earlier invocations. Non-trivial = distinct case with b != a.")
+        "The two matrices are compared in both orders, and once more, as the same objects. unrelated matrix; both operand orders are compared. Numbers include values around 2^32 (the next half step differs in the tenth digit), value texts include characters outside ASCII, frames added with the number of an existing frame in the other format, definitions edited inside their type (ENUM values, INT range). Frame lengths are 0..8, every length up to 64 bytes and a few longer ones (a length edit goes to a usual length, to a neighbour one or two bytes away, or to any length); signals of longer frames start anywhere in them. Signals share their bits (start, width, byte order) with other signals of the frame - other multiplexer groups or plain overlaps - in generated frames, as the added signal (signal.add-overlay) and as the deleted one; signals are renamed; added frames, signals, ECUs, definitions, value tables and signal groups are also copies of existing ones under a new name. One case in five is compared after one to three other comparisons (other operands, other ignore settings) in the same process. A second stream goes through the command line canmatrix.cli.compare: the two matrices (made expressible in DBC: every attribute defined, one multiplexer per frame) are written to files, the case describes what a reader gets from the files, and cli_compare is invoked in a forked child process - by main(args), by click's CliRunner or by its callback, switches -c/-a/-t in short or long spelling - on a b and on b a, after zero to three earlier invocations with other switches, other operand orders or --frames; the printed report is held against the library comparison of the same files under the ignore settings the switches stand for, and is itself the observation when it differs. The meaning of the switches (op flags) is observed on fourteen probe file pairs that differ in one comment / attribute / definition / value table entry, again after earlier invocations. Attributes and definitions are also called like a member of the class of the object that carries them (Signal.unit, Frame.cycle_time, Ecu.comment ... taken from the classes), like a member of another class or like a node label of the report; an attribute edit (added anywhere / deleted / value changed, any attribute of the object) also hits one object drawn from all attribute-carrying objects of the matrix (edit kind attr); two of the probe pairs differ in such an attribute; defaults written to files are of their definition's type. Non-trivial = distinct case with b != a.")
 PARTIAL = ["numeric fields are compared as doubles by the code; generated values are multiples of 0.5 (exactly representable), "
            "modelled as integers", "the ref/changes payload of result nodes (object references, old/new texts) is not compared, only "
            "(result, type) and the tree shape", "cancompare's stdout is compared as text with dump_result of the library's tree for the same files; when it differs, the tree read back "
@@ -61,8 +61,42 @@ def other_length(rng, cur):
     return rng.choice([o for o in opts if o != cur])
 
 
-def kv(rng, p=0.4):
-    return [[a, rng.choice(["1", "x", "on"])] for a in ANAMES if rng.random() < p]
+# names an attribute (or its definition) may legitimately carry that are also the names of something else on the object concerned:
+# the members of the class of the object (Signal.unit, Frame.cycle_time, Ecu.comment, CanMatrix.frames ...), which the accessors
+# attribute() of Frame and Signal answer before they look into the attributes.  Taken from the classes, not a hand-picked list.
+def _member_names(cls):
+    try:
+        import attr
+        names = sorted(n for n in attr.fields_dict(cls) if not n.startswith("_"))
+    except Exception:  # noqa
+        names = []
+    return names or ["name", "comment"]
+
+
+MEMBERS = {"global": _member_names(cm.CanMatrix), "ecu": _member_names(cm.Ecu), "frame": _member_names(cm.Frame),
+           "signal": _member_names(cm.Signal)}
+# names of members of the *other* classes, and names the comparison itself uses for its nodes
+FOREIGN = ["unit", "cycle_time", "comment", "name", "ATTRIBUTES", "dlc", "ID"]
+
+
+def member_like(rng, level, n):
+    """up to n names for attributes of an object of the level: mostly members of its class, sometimes of another class / a node label"""
+    pool = MEMBERS[level]
+    out = []
+    for _ in range(n):
+        x = rng.choice(pool) if rng.random() < 0.8 else rng.choice(FOREIGN)
+        if x not in out:
+            out.append(x)
+    return out
+
+
+def kv(rng, p=0.4, level=None):
+    out = [[a, rng.choice(["1", "x", "on"])] for a in ANAMES if rng.random() < p]
+    if level is not None and rng.random() < 0.45:
+        # attributes called like a member of the object that carries them, anywhere among the others
+        for a in member_like(rng, level, rng.choice([1, 1, 2])):
+            out.insert(rng.randint(0, len(out)), [a, rng.choice(["1", "x", "on", "7"])])
+    return out
 
 
 def gen_sig(rng, name, length=8):
@@ -73,7 +107,7 @@ def gen_sig(rng, name, length=8):
             "offset": rng.choice([0, 0, 1, -80, BIG]), "min": rng.choice([0, -10, 2, -BIG]), "max": rng.choice([100, 255, 7, BIG]),
             "little": rng.random() < 0.5, "signed": rng.random() < 0.5, "multiplex": mux, "unit": rng.choice(["", "km/h", "V"]),
             "comment": rng.choice([None, "c1", "speed of car"]), "receivers": rng.sample(ECUS, rng.choice([0, 1, 2])),
-            "attrs": kv(rng, 0.3), "values": [[k, rng.choice(["On", "Off", "Err", "ge\u00f6ffnet", "10 \u00b5s"])] for k in rng.sample(range(6), rng.choice([0, 0, 2, 3]))]}
+            "attrs": kv(rng, 0.3, "signal"), "values": [[k, rng.choice(["On", "Off", "Err", "ge\u00f6ffnet", "10 \u00b5s"])] for k in rng.sample(range(6), rng.choice([0, 0, 2, 3]))]}
 
 
 def overlay(rng, s, on):
@@ -100,29 +134,34 @@ def gen_frame(rng, name, i, ext):
     names = [s["name"] for s in sigs]
     groups = [["grp%d" % g, g, rng.sample(names, rng.randint(0, len(names)))] for g in range(rng.choice([0, 0, 1, 2]))]
     return {"name": name, "id": i, "ext": ext, "size": length, "comment": rng.choice([None, "", "fc", "frame comment"]),
-            "tx": rng.sample(ECUS, rng.choice([0, 1, 2])), "attrs": kv(rng), "sigs": sigs, "groups": groups}
+            "tx": rng.sample(ECUS, rng.choice([0, 1, 2])), "attrs": kv(rng, 0.4, "frame"), "sigs": sigs, "groups": groups}
 
 
-def gen_defs(rng):
+def gen_defs(rng, level=None):
     out = []
     for a in ANAMES:
         if rng.random() < 0.5:
             out.append([a, rng.choice(["INT 0 100", "STRING", 'ENUM "a","b"']), rng.choice([None, "1", "a"])])
+    if level is not None and rng.random() < 0.3:
+        # a definition called like a member of the objects of its level
+        for a in member_like(rng, level, 1):
+            out.insert(rng.randint(0, len(out)), [a, rng.choice(["INT 0 100", "STRING", 'ENUM "a","b"']), rng.choice([None, "1", "a"])])
     return out
 
 
 def gen_matrix(rng, tag=""):
     ids = rng.sample([(0x10, False), (0x11, False), (0x18FEF100, True), (0x20, False), (0x21, False)], rng.randint(0, 4))
     frames = [gen_frame(rng, "F%x%s" % (i, tag), i, e) for i, e in ids]
-    return {"frames": frames, "ecus": [[e, rng.choice([None, "ec", "ecu comment"]), kv(rng, 0.3)] for e in ECUS if rng.random() < 0.6],
-            "attrs": kv(rng), "gd": gen_defs(rng), "ed": gen_defs(rng), "fd": gen_defs(rng), "sd": gen_defs(rng),
+    return {"frames": frames, "ecus": [[e, rng.choice([None, "ec", "ecu comment"]), kv(rng, 0.3, "ecu")] for e in ECUS if rng.random() < 0.6],
+            "attrs": kv(rng, 0.4, "global"), "gd": gen_defs(rng, "global"), "ed": gen_defs(rng, "ecu"), "fd": gen_defs(rng, "frame"),
+            "sd": gen_defs(rng, "signal"),
             "vt": [["VT%d" % k, [[j, rng.choice(["a", "b"])] for j in range(rng.randint(0, 3))]] for k in range(rng.choice([0, 0, 1, 2]))]}
 
 
 def edit(rng, a):
     """returns (b, description) with exactly one edit, or (None, None) if the chosen edit is not applicable"""
     b = pycopy.deepcopy(a)
-    kind = rng.choice(["frame", "frame", "signal", "signal", "signal", "ecu", "def", "gattr", "vt"])
+    kind = rng.choice(["frame", "frame", "signal", "signal", "signal", "ecu", "def", "gattr", "vt", "attr"])
     other = lambda cur, opts: rng.choice([o for o in opts if o != cur])  # noqa
     if kind == "frame":
         what = rng.choice(["add", "del", "size", "size", "id", "ext", "name", "comment", "tx+", "tx-", "attr", "group+", "group-", "groupmember", "groupid"])
@@ -325,6 +364,14 @@ def edit(rng, a):
         return b, "def." + what
     if kind == "gattr":
         return attr_edit(rng, b["attrs"], b, "global.attr")
+    if kind == "attr":
+        # one attribute of one object, the object drawn from all objects of the matrix that carry attributes
+        objs = [("global.attr", b["attrs"])] + [("ecu.attr", e[2]) for e in b["ecus"]]
+        for f in b["frames"]:
+            objs.append(("frame.attr", f["attrs"]))
+            objs.extend(("signal.attr", x["attrs"]) for x in f["sigs"])
+        tag, attrs = rng.choice(objs)
+        return attr_edit(rng, attrs, b, tag)
     if kind == "vt":
         what = rng.choice(["add", "del", "chg"])
         if what == "add":
@@ -348,15 +395,23 @@ def edit(rng, a):
 
 def attr_edit(rng, attrs, b, tag):
     what = rng.choice(["add", "del", "chg"])
+    level = tag.split(".")[0]
     if what == "add":
-        cand = [a for a in ANAMES + ["Extra"] if a not in [k for k, _ in attrs]]
-        attrs.append([rng.choice(cand), "new"])
+        have = [k for k, _ in attrs]
+        cand = [a for a in ANAMES + ["Extra"] if a not in have]
+        if rng.random() < 0.35:
+            # the new attribute is called like a member of the object
+            cand = [a for a in member_like(rng, level, 2) if a not in have] or cand
+        attrs.insert(rng.randint(0, len(attrs)), [rng.choice(cand), "new"])
     elif not attrs:
         return None, None
     elif what == "del":
         attrs.pop(rng.randrange(len(attrs)))
     else:
-        attrs[0][1] = attrs[0][1] + "_chg"
+        # any attribute of the object changes its value (half of the time one called like a member, if there is one)
+        like = [x for x in attrs if x[0] in MEMBERS[level] or x[0] in FOREIGN]
+        x = rng.choice(like) if like and rng.random() < 0.5 else rng.choice(attrs)
+        x[1] = x[1] + "_chg" if rng.random() < 0.7 else ("1" if x[1] != "1" else "2")
     return b, tag + "." + what
 
 
@@ -418,6 +473,16 @@ def file_fit(m):
                     kv[1] = vals[0]
             elif de.startswith("INT") and not re.fullmatch(r"-?\d+", kv[1]):
                 kv[1] = "1"
+    for key in ("gd", "ed", "fd", "sd"):
+        for d in m[key]:
+            # the default written into the file is one of the definition's type (the reader refuses the line otherwise)
+            if d[2] is not None:
+                if d[1].startswith("ENUM"):
+                    vals = re.findall(r'"([^"]*)"', d[1])
+                    if d[2] not in vals:
+                        d[2] = vals[0]
+                elif d[1].startswith("INT") and not re.fullmatch(r"-?\d+", d[2]):
+                    d[2] = "1"
     fix(m["attrs"], m["gd"])
     for e in m["ecus"]:
         fix(e[2], m["ed"])
@@ -704,13 +769,13 @@ def pruned(t):
 
 # probe files: one base matrix and variants that differ from it in exactly one thing of one category
 PROBE_BASE = {
-    "frames": [{"name": "Status", "id": 0x123, "ext": False, "size": 8, "comment": "status frame", "tx": ["E1"], "attrs": [["GenA", "x"]],
+    "frames": [{"name": "Status", "id": 0x123, "ext": False, "size": 8, "comment": "status frame", "tx": ["E1"], "attrs": [["GenA", "x"], ["cycle_time", "5"]],
                 "sigs": [{"name": "Mode", "start": 0, "size": 4, "factor": 2, "offset": 0, "min": 0, "max": 30, "little": True, "signed": False,
-                          "multiplex": "None", "unit": "", "comment": "operating mode", "receivers": ["E2"], "attrs": [["Note", "on"]],
+                          "multiplex": "None", "unit": "", "comment": "operating mode", "receivers": ["E2"], "attrs": [["Note", "on"], ["unit", "x"]],
                           "values": [[0, "Off"], [1, "On"]]}], "groups": []}],
     "ecus": [["E1", "first", [["Mode", "x"]]], ["E2", None, []]], "attrs": [["GenA", "1"]],
-    "gd": [["GenA", "STRING", None], ["Level", "INT 0 100", "5"]], "ed": [["Mode", "STRING", None]], "fd": [["GenA", "STRING", None]],
-    "sd": [["Note", "STRING", None]], "vt": [["VT0", [[0, "a"], [1, "b"]]]]}
+    "gd": [["GenA", "STRING", None], ["Level", "INT 0 100", "5"]], "ed": [["Mode", "STRING", None]], "fd": [["GenA", "STRING", None], ["cycle_time", "INT 0 1000", None]],
+    "sd": [["Note", "STRING", None], ["unit", "STRING", None]], "vt": [["VT0", [[0, "a"], [1, "b"]]]]}
 
 
 def _probe(path, value):
@@ -730,6 +795,8 @@ PROBES = [  # (category: index into [comment, attribute, define, value table], v
     (1, _probe(["frames", 0, "attrs", 0, 1], "1")),
     (1, _probe(["frames", 0, "sigs", 0, "attrs", 0, 1], "x")),
     (1, _probe(["ecus", 0, 2, 0, 1], "on")),
+    (1, _probe(["frames", 0, "attrs", 1, 1], "7")),                # attributes called like a member of the frame / the signal
+    (1, _probe(["frames", 0, "sigs", 0, "attrs", 1, 1], "on")),
     (2, _probe(["gd", 1, 2], "7")),
     (2, _probe(["gd", 1, 1], "INT 0 101")),
     (3, _probe(["frames", 0, "sigs", 0, "values", 1, 1], "Auto")),
